@@ -111,10 +111,16 @@ def check(model, rep):
     arms = []
     cur = chain
     while True:
-        arms.append((src(cur.test).replace(' ', ''), cur.body))
         if len(cur.orelse) == 1 and isinstance(cur.orelse[0], ast.If):
+            arms.append((src(cur.test).replace(' ', ''), cur.body))
             cur = cur.orelse[0]
+        elif isinstance(cur.test, ast.UnaryOp) and isinstance(cur.test.op, ast.Not) and cur.orelse:
+            # `elif not dims == k: <else arm> else: <k arm>` is the same dispatch written the other way round
+            arms.append((src(cur.test.operand).replace(' ', ''), cur.orelse))
+            arms.append(('else', cur.body))
+            break
         else:
+            arms.append((src(cur.test).replace(' ', ''), cur.body))
             arms.append(('else', cur.orelse))
             break
     tests = [a[0] for a in arms]
